@@ -156,6 +156,8 @@ type interpreter struct {
 	knownOn    map[string]bool // known-finding ids enabled for this run
 	lenient    int
 	nasserts   int
+	fmtFr      *frame // frame on whose behalf the formatter calls Error methods
+	fmtDepth   int
 	allocLimit int64 // vstub.AllocLimit: symbolic allocations above it are violations
 	params     map[string]int
 	nchans     int
